@@ -476,15 +476,10 @@ func ApplyConnectCAOperationFromRequest(state *state.Store, req *structs.CAReque
 
 		return true
 	case structs.CAOpSetRootsAndConfig:
-		act, err := state.CARootSetCAS(index, req.Index, req.Roots)
-		if err != nil {
-			return err
-		}
-		if !act {
-			return act
-		}
-
-		act, err = state.CACheckAndSetConfig(index, req.Config.ModifyIndex, req.Config)
+		// Both parts are applied in one state store transaction so that a
+		// failure of the second check cannot leave the roots replaced
+		// without the matching config.
+		act, err := state.CARootSetCASAndConfig(index, req.Index, req.Roots, req.Config.ModifyIndex, req.Config)
 		if err != nil {
 			return err
 		}
